@@ -180,6 +180,9 @@ var logqlQueries = []string{
 	`{a="b", c!="d", e!="f"}`,
 	`{a="it's \\ \"q\""}`,
 	"{a=`b\\d+`}",
+	`{a=~"b\\d+"}`,
+	`{a="b", c="d", e="f", g="h", i="j", k="l", m="n", o="p"}`,
+	`{a="b", c="d", e="f", g="h", i="j", k="l", m="n", o="p", q="r"}`,
 	// line filters
 	`{a="b"} |= "x"`,
 	`{a="b"} != "x"`,
@@ -191,6 +194,15 @@ var logqlQueries = []string{
 	`{a="b"} |= "100%_done\\"`,
 	`{a="b"} |= "it's"`,
 	`{a="b"} |= ""`,
+	`{a="b"} |= "x'"`,
+	`{a="b"} |= "'"`,
+	`{a="b"} |= "tab\there"`,
+	`{a="b"} |~ "a|b"`,
+	`{a="b"} !~ "a|b"`,
+	`{a="b"} |~ "(?i)plain"`,
+	`{a="b"} !~ "(?i)plain"`,
+	`{a="b"} |~ "a.b"`,
+	`{a="b"} |~ "100%"`,
 	// label filters
 	`{a="b"} | c="d"`,
 	`{a="b"} | c!="d"`,
@@ -385,7 +397,7 @@ func genLogQL(e *env) {
 		}
 	}
 	// With cached fingerprints: the planners switch to IN (list) when ctx has cache? covered by UseCache flag below.
-	for _, q := range []string{`{a="b"}`, `{a="b"} |= "x"`, `rate({a="b"} |= "x" [1m])`, `sum(rate({a="b"}[1m])) by (a)`} {
+	for _, q := range []string{`{a="b"}`, `{a="b", c=~"d.*"} |= "x"`} {
 		safely("logql direct "+q, func() {
 			script, err := logql_parser.Parse(q)
 			if err != nil {
